@@ -172,7 +172,11 @@ func (w *world) ops(n int, phase string) {
 		if w.rng.Intn(10) < 7 {
 			w.vseq++
 			v := fmt.Sprintf("v%d-%040d", w.vseq, 0)
-			err := guarded(func() error { return d.Put(ctx, k, v) })
+			var popts []olric.PutOption
+			if w.rng.Intn(3) == 0 {
+				popts = append(popts, olric.EX(time.Hour)) // an expiry far away: the value must survive every hand-over like any other
+			}
+			err := guarded(func() error { return d.Put(ctx, k, v, popts...) })
 			if err == errHang {
 				w.wedged = true
 			}
@@ -256,6 +260,18 @@ func (w *world) reapExpired(ks []string, deadline time.Time, phase string) {
 
 func (w *world) readAll(phase string) {
 	ctx := context.Background()
+	if dk := os.Getenv("VERIF_DEBUG_KEY"); dk != "" {
+		line := fmt.Sprintf("DEBUG %s [%s]:", dk, phase)
+		for _, m := range w.c.Live() {
+			_, p := m.V.DMap.VerifEntry(w.dm, dk, partitions.PRIMARY)
+			_, b := m.V.DMap.VerifEntry(w.dm, dk, partitions.BACKUP)
+			line += fmt.Sprintf(" m%d(p=%v,b=%v)", m.Index, p, b)
+		}
+		owner, part := w.c.OwnerOf(w.c.Live()[0], w.dm, dk)
+		tab := w.c.Live()[0].Table(w.c.Opts.Partitions)
+		line += fmt.Sprintf(" part=%d owner=%d owners=%v backups=%v", part, owner.Index, tab.Owners[part], tab.Backups[part])
+		fmt.Println(line)
+	}
 	for _, k := range w.keys {
 		for _, m := range w.c.Live() {
 			if w.wedged {
@@ -365,6 +381,14 @@ func writeSummary(out, name string, s *summary) {
 
 // TestC03 : joins (and leaves, for R >= 2) with operations placed after the routing push but before any
 // table moved, between table moves and after; every read from every member is logged at each point.
+// hk: clusters with small storage tables run the real janitor and compaction timers
+func hk(T int) time.Duration {
+	if T > 0 {
+		return 30 * time.Millisecond
+	}
+	return 0
+}
+
 var crashPoints = []string{"move.exported", "move.sent", "merge.locked", "merge.conflict", "merge.done"}
 
 func TestC03(t *testing.T) {
@@ -389,6 +413,9 @@ func TestC03(t *testing.T) {
 	for s := 0; s < nscen; s++ {
 		s := s
 		seed := rng.Int63()
+		if only := envInt("VERIF_ONLY", -1); only >= 0 && only != s {
+			continue
+		}
 		wg.Add(1)
 		sem <- struct{}{}
 		go func() {
@@ -406,7 +433,7 @@ func TestC03(t *testing.T) {
 				R := 1 + rng.Intn(2)
 				n0 := 1 + rng.Intn(3)
 				T := []int{512, 512, 0}[rng.Intn(3)]
-				c, err := cluster.Start(cluster.Options{Replicas: R, Partitions: 7, TableSize: T, Manual: true}, n0)
+				c, err := cluster.Start(cluster.Options{Replicas: R, Partitions: 7, TableSize: T, Manual: true, Housekeeping: hk(T)}, n0)
 				if err != nil {
 					panic(err)
 				}
@@ -420,6 +447,7 @@ func TestC03(t *testing.T) {
 				w.readAll("initial")
 				events := 1 + rng.Intn(3)
 				var desc []string
+				var held []*sched.Gate
 				ok := true
 				for e := 0; e < events && ok && !w.wedged; e++ {
 					canLeave := R >= 2 && len(c.Live()) > R
@@ -491,7 +519,9 @@ func TestC03(t *testing.T) {
 								case <-stopped:
 								case <-time.After(8 * time.Second):
 								}
-								g.Release()
+								// the goroutine that was stopped at the point stays there until the scenario is over: a crashed
+								// process does not finish the merge, acknowledge the move or send what it had exported
+								held = append(held, g)
 								w.leaves++
 								w.crashes++
 								w.unsettled = true
@@ -535,6 +565,9 @@ func TestC03(t *testing.T) {
 					w.readAll("after stabilisation")
 				}
 				c.ShutdownAsync()
+				for _, g := range held {
+					g.Release()
+				}
 				mu.Lock()
 				sum.Evaluations += w.evals
 				sum.Disturbed += w.disturbed
